@@ -53,6 +53,8 @@ pub mod tapes;
 #[cfg(kani)]
 mod c16;
 #[cfg(kani)]
+mod c17;
+#[cfg(kani)]
 mod c19;
 #[cfg(kani)]
 mod c20;
